@@ -6,13 +6,24 @@ package domainmatcher
 import (
 	"bytes"
 	"fmt"
+	"os"
 	"regexp"
 	"sort"
 	"strings"
+	"sync"
 	"testing"
 
 	"github.com/IrineSistiana/mosproxy/internal/zzverif/report"
 )
+
+// c11P: the property reported for. The matcher decides the domain condition of C10's rules, so the label-length sweep and a
+// shorter enumeration also run as a part of C10.
+var c11P = func() string {
+	if os.Getenv("VERIF_PROP") == "C10" {
+		return "C10:domain-condition"
+	}
+	return "C11"
+}()
 
 type c11Ref struct {
 	kind   int // 0 domain, 1 full, 2 regexp
@@ -212,7 +223,7 @@ func c11Match(m *MixMatcher, wire []byte) (ok bool, err error) {
 }
 
 func TestVerifC11(t *testing.T) {
-	rep := report.New("C11 domain matcher vs set reference")
+	rep := report.New(c11P + " domain matcher vs set reference")
 	defer rep.Write()
 	entries := c11Entries()
 	names := c11Names()
@@ -230,14 +241,26 @@ func TestVerifC11(t *testing.T) {
 		var x struct {
 			Seq     []int
 			Variant int
+			Family  string
+			N       int
 		}
 		rp.Decode(&x)
-		c11Run(rep, entries, refs, names, wires, x.Seq, x.Variant)
+		switch x.Family {
+		case "label-length":
+			c11LabelLengths(rep, x.N, x.N)
+		case "line-length":
+			c11LineLengths(rep, x.N, x.N)
+		default:
+			c11Run(rep, entries, refs, names, wires, x.Seq, x.Variant)
+		}
 		return
 	}
 	rep.Rule = fmt.Sprintf("all entry sequences (with repetition) of length 0..%d over a %d-entry alphabet x %d file layouts x %d query names; "+
-		"distinct = distinct (entry set, name, verdict) triples; every case is non-trivial by construction (entries are parents/children/duplicates/case variants of each other and of the names)",
-		maxLen, len(entries), variants, len(names))
+		"distinct = distinct (entry set, name, verdict) triples; every case is non-trivial by construction (entries are parents/children/duplicates/case variants of each other and of the names); "+
+		"plus a label-length sweep (every label length 1..63 x 4 octet styles as entry label / parent / child / tld / full:, queried with the same label, a sibling differing in the last octet, one octet shorter and longer, children) "+
+		"and a line-length sweep (every line length 0..%d in 6 file templates: long comment after an entry, long comment line, leading / trailing blanks, long regexp entry, long last line without newline; "+
+		"the comment text is made of dotted labels so that any piece of it read as an entry matches one of the 130 queried names)",
+		maxLen, len(entries), variants, len(names), report.ParamInt("MAXLINE", 9000))
 	idx := 0
 	var rec func(seq []int)
 	rec = func(seq []int) {
@@ -259,6 +282,10 @@ func TestVerifC11(t *testing.T) {
 		}
 	}
 	rec(nil)
+	c11LabelLengths(rep, 1, 63)
+	if c11P == "C11" {
+		c11LineLengths(rep, 0, report.ParamInt("MAXLINE", 9000))
+	}
 	rep.Sample(map[string]any{"entries": []string{"com", "a.com"}, "names": "com, a.com, b.com, ...", "oracle": "Match == set-based reference"})
 }
 
@@ -287,7 +314,7 @@ func c11Run(rep *report.R, entries []string, refs []c11Ref, names [][][]byte, wi
 			}
 		}
 		rep.Eval(fmt.Sprintf("%v|loaderr", set))
-		rep.Violate(fmt.Sprintf("C11:%s:entry=%q", kind, culprit), fmt.Sprintf("loading entries %q (layout %d): %v", strs, variant, err), replay)
+		rep.Violate(fmt.Sprintf(c11P+":%s:entry=%q", kind, culprit), fmt.Sprintf("loading entries %q (layout %d): %v", strs, variant, err), replay)
 		return
 	}
 	for ni, w := range wires {
@@ -295,7 +322,7 @@ func c11Run(rep *report.R, entries []string, refs []c11Ref, names [][][]byte, wi
 		want := c11RefMatch(rs, names[ni])
 		rep.Eval(fmt.Sprintf("%v|%d|%v", set, ni, want))
 		if err != nil {
-			rep.Violate(fmt.Sprintf("C11:match-panic:name=%q", c11Text(names[ni])), fmt.Sprintf("entries %q name %q: %v", strs, c11Text(names[ni]), err), replay)
+			rep.Violate(fmt.Sprintf(c11P+":match-panic:name=%q", c11Text(names[ni])), fmt.Sprintf("entries %q name %q: %v", strs, c11Text(names[ni]), err), replay)
 			continue
 		}
 		if got != want {
@@ -325,8 +352,185 @@ func c11Run(rep *report.R, entries []string, refs []c11Ref, names [][][]byte, wi
 			for j, s := range min {
 				ms[j] = entries[s]
 			}
-			rep.Violate(fmt.Sprintf("C11:mismatch:entries=%q:got=%v", ms, got),
+			rep.Violate(fmt.Sprintf(c11P+":mismatch:entries=%q:got=%v", ms, got),
 				fmt.Sprintf("entries (in load order) %q, query name %q: Match=%v, reference=%v; minimal failing entry list %q", strs, c11Text(names[ni]), got, want, ms), replay)
 		}
+	}
+}
+
+// c11Check loads the given files and compares the verdict on every name with the reference.
+func c11Check(rep *report.R, what string, perName bool, files [][]byte, rs []c11Ref, names [][][]byte, replay map[string]any) {
+	m, err := c11Load(files)
+	if err != nil {
+		kind := "load-error"
+		if strings.HasPrefix(err.Error(), "PANIC") {
+			kind = "load-panic"
+		}
+		rep.Eval(what + "|loaderr")
+		rep.Violate(c11P+":"+kind+":"+what, fmt.Sprintf("%s: loading failed: %v", what, err), replay)
+		return
+	}
+	if !perName {
+		rep.Eval(what) // one evaluation = this file x all names
+	}
+	for _, n := range names {
+		got, err := c11Match(m, c11Wire(n))
+		want := c11RefMatch(rs, n)
+		if perName {
+			rep.Eval(fmt.Sprintf("%s|%s|%v", what, c11Text(n), want))
+		}
+		if err != nil {
+			rep.Violate(c11P+":match-panic:"+what, fmt.Sprintf("%s name %q: %v", what, c11Text(n), err), replay)
+		} else if got != want {
+			rep.Violate(fmt.Sprintf(c11P+":mismatch:%s:got=%v", what, got), fmt.Sprintf("%s, query name %q: Match=%v, reference=%v", what, c11Text(n), got, want), replay)
+		}
+	}
+}
+
+// c11LabelLengths: every label length lo..hi in four octet styles, as the label of an entry in several positions.
+func c11LabelLengths(rep *report.R, lo, hi int) {
+	styles := []struct {
+		name string
+		mk   func(n int) (entry, lower []byte)
+	}{
+		{"letters", func(n int) ([]byte, []byte) { b := bytes.Repeat([]byte{'k'}, n); return b, b }},
+		{"upper-case-entry", func(n int) ([]byte, []byte) {
+			return bytes.Repeat([]byte{'K'}, n), bytes.Repeat([]byte{'k'}, n)
+		}},
+		{"with-nul", func(n int) ([]byte, []byte) {
+			b := bytes.Repeat([]byte{'k'}, n)
+			b[n/2] = 0
+			return b, b
+		}},
+		{"digits-hyphen", func(n int) ([]byte, []byte) {
+			b := bytes.Repeat([]byte{'7'}, n)
+			b[n-1] = '-'
+			return b, b
+		}},
+	}
+	idx := 0
+	for n := lo; n <= hi; n++ {
+		for si, st := range styles {
+			idx++
+			if !report.Owns(idx) && lo != hi {
+				continue
+			}
+			e, l := st.mk(n)
+			sib := append([]byte(nil), l...)
+			sib[n-1] ^= 1
+			var names [][][]byte
+			names = append(names, [][]byte{l, []byte("com")}, [][]byte{[]byte("z"), l, []byte("com")}, [][]byte{[]byte("x"), l, []byte("com")},
+				[][]byte{sib, []byte("com")}, [][]byte{l}, [][]byte{[]byte("z"), l}, [][]byte{[]byte("com")}, [][]byte{l, l, []byte("com")})
+			if n > 1 {
+				names = append(names, [][]byte{l[:n-1], []byte("com")})
+			}
+			if n < 63 {
+				names = append(names, [][]byte{append(append([]byte(nil), l...), 'k'), []byte("com")})
+			}
+			es := string(e)
+			for vi, lines := range [][]string{
+				{es + ".com"}, {"x." + es + ".com"}, {"full:" + es + ".com"}, {es}, {es + ".com", "z." + es + ".com"}, {"z." + es + ".com", es + ".com"}, {"full:" + es, "x." + es + "." + es + ".com"},
+			} {
+				var rs []c11Ref
+				for _, ln := range lines {
+					rs = append(rs, c11ParseEntry([]byte(ln)))
+				}
+				c11Check(rep, fmt.Sprintf("label-length=%d:%s:entries#%d", n, st.name, vi), true, [][]byte{[]byte(strings.Join(lines, "\n") + "\n")}, rs, names,
+					map[string]any{"Family": "label-length", "N": n, "Style": si})
+			}
+		}
+	}
+}
+
+// c11LineLengths: every padding length lo..hi in six file templates. The padding inside comments is "z.z.z....org", so a piece of
+// it wrongly read as an entry is either rejected by the loader or matches one of the queried names z.org, z.z.org, ...
+func c11LineLengths(rep *report.R, lo, hi int) {
+	names := [][][]byte{c11L("a", "com"), c11L("b", "com"), c11L("com"), c11L("org"), c11L("c", "com"), c11L("x", "a", "com")}
+	for k := 1; k <= 125; k++ {
+		var n [][]byte
+		for i := 0; i < k; i++ {
+			n = append(n, []byte("z"))
+		}
+		names = append(names, append(n, []byte("org")))
+	}
+	ab := []c11Ref{c11ParseEntry([]byte("a.com")), c11ParseEntry([]byte("b.com"))}
+	zpad := func(n int) string { // n octets of "z.z.z." ending in "org" when long enough
+		b := []byte(strings.Repeat("z.", n/2+1))[:n]
+		if n >= 4 {
+			copy(b[n-4:], ".org")
+		}
+		return string(b)
+	}
+	for n := lo; n <= hi; n++ {
+		if !report.Owns(n) && lo != hi {
+			continue
+		}
+		rp := map[string]any{"Family": "line-length", "N": n}
+		sp := strings.Repeat(" ", n)
+		c11Check(rep, fmt.Sprintf("line-length:comment-after-entry:pad=%d", n), false, [][]byte{[]byte("a.com #" + zpad(n) + "\nb.com\n")}, ab, names, rp)
+		c11Check(rep, fmt.Sprintf("line-length:comment-line:pad=%d", n), false, [][]byte{[]byte("#" + zpad(n) + "\na.com\nb.com\n")}, ab, names, rp)
+		c11Check(rep, fmt.Sprintf("line-length:leading-blanks:pad=%d", n), false, [][]byte{[]byte(sp + "a.com\nb.com\n")}, ab, names, rp)
+		c11Check(rep, fmt.Sprintf("line-length:trailing-blanks:pad=%d", n), false, [][]byte{[]byte("a.com" + sp + "# c\nb.com\n")}, ab, names, rp)
+		c11Check(rep, fmt.Sprintf("line-length:last-line-no-newline:pad=%d", n), false, [][]byte{[]byte("a.com\nb.com #" + zpad(n))}, ab, names, rp)
+		re := "regexp:^(" + strings.Repeat("q|", n/2) + "a)\\.com$"
+		c11Check(rep, fmt.Sprintf("line-length:long-regexp:pad=%d", n), false, [][]byte{[]byte(re + "\nb.com\n")},
+			[]c11Ref{c11ParseEntry([]byte(re)), c11ParseEntry([]byte("b.com"))}, names, rp)
+	}
+}
+
+// TestVerifC11Concurrent: Match is called concurrently by every listener goroutine. The verdict must not depend on what other
+// calls are doing; this is the free-running pass of the same bodies (plain build: verdicts compared; -race build: the detector
+// decides whether two calls share unsynchronized state).
+func TestVerifC11Concurrent(t *testing.T) {
+	rep := report.New("C11 concurrent Match calls")
+	defer rep.Write()
+	entries := []string{`regexp:^a\.`, `regexp:\.org$`, `regexp:^\\095x\.`, "full:b.com", "c.com", c11L25 + ".com", "a\x00.net"}
+	names := append(c11Names(), c11L("a", "net"), c11L("zzz", "org"), c11L("a", "b", "c", "d", "e", "f", "org"), c11L("_x", "net"), c11L("a\x00", "net"), c11L("q", "c", "com"))
+	var rs []c11Ref
+	for _, e := range entries {
+		rs = append(rs, c11ParseEntry([]byte(e)))
+	}
+	m, err := c11Load([][]byte{[]byte(strings.Join(entries, "\n") + "\n")})
+	if err != nil {
+		rep.Violate("C11:concurrent:load-error", err.Error(), nil)
+		return
+	}
+	want := make([]bool, len(names))
+	wires := make([][]byte, len(names))
+	for i, n := range names {
+		want[i] = c11RefMatch(rs, n)
+		wires[i] = c11Wire(n)
+	}
+	const G = 4
+	rounds := report.ParamInt("ROUNDS", 200)
+	rep.Rule = fmt.Sprintf("free-running pass: %d goroutines x %d rounds x %d names call Match on one matcher holding regexp:, full: and domain entries, each starting at a different name; every verdict is compared with the "+
+		"set reference; in the -race build the Go race detector decides whether concurrent calls share unsynchronized state (a data race in Match is a violation)", G, rounds, len(names))
+	var wg sync.WaitGroup
+	var mu sync.Mutex
+	bad := map[string]bool{}
+	for g := 0; g < G; g++ {
+		wg.Add(1)
+		go func(g int) {
+			defer wg.Done()
+			for r := 0; r < rounds; r++ {
+				for k := range names {
+					i := (k*(g+1) + g*7 + r) % len(names)
+					got, err := c11Match(m, wires[i])
+					if err != nil || got != want[i] {
+						mu.Lock()
+						bad[fmt.Sprintf("name %q: Match=%v err=%v, reference=%v", c11Text(names[i]), got, err, want[i])] = true
+						mu.Unlock()
+					}
+				}
+			}
+		}(g)
+	}
+	wg.Wait()
+	for i := range names {
+		rep.Eval(fmt.Sprintf("concurrent|%d|%v", i, want[i]))
+	}
+	for b := range bad {
+		rep.Violate("C11:concurrent:verdict-depends-on-other-calls", "with other Match calls running concurrently: "+b, nil)
+		break
 	}
 }
